@@ -135,3 +135,37 @@ def site_sets(draw, matrix, n_min=1, n_max=6, min_sep=None, labels=('A', 'B', 'C
     if min_sep is not None:
         assume(sep > min_sep)
     return {'frac': pts, 'labels': labs, 'sep': sep}
+
+
+# --------------------------------------------------------------------------- trajectories
+STEP_KINDS = [0.02, 0.02, 0.05, 0.2, 0.2, 0.49]
+
+
+@st.composite
+def path_cases(draw, max_frames=12, max_atoms=4, min_frames=2, min_atoms=1, specials=True, min_kinds=1, lat_kw=None,
+               step_kinds=None, max_step=0.499999, species_pool=None):
+    """A periodic trajectory given as an *unwrapped* fractional path base + cumsum(steps) with every
+    step component |s| <= max_step < 1/2, so that the minimum-image unwrapping is unambiguous."""
+    lat = draw(lattices(**(lat_kw or {})))
+    T = draw(st.integers(min_frames, max_frames))
+    N = draw(st.integers(min_atoms, max_atoms))
+    symbols = draw(species_lists(N, min_kinds, species_pool))
+    base = [[draw(frac_coord(specials)) for _ in range(3)] for _ in range(N)]
+    n = (T - 1) * N
+    kinds = draw(st.lists(st.sampled_from(step_kinds or STEP_KINDS), min_size=n, max_size=n))
+    u = draw(st.lists(st.floats(-1, 1), min_size=3 * n, max_size=3 * n))
+    steps = np.array(u, float).reshape(T - 1, N, 3) * np.minimum(np.array(kinds, float), max_step).reshape(T - 1, N, 1)
+    path = np.concatenate([np.array(base, float)[None], np.array(base, float)[None] + np.cumsum(steps, axis=0)], axis=0)
+    return {
+        'lattice': lat,
+        'symbols': symbols,
+        'species_kind': draw(st.sampled_from(['Species', 'Element'])),
+        'path': path.tolist(),
+        'time_step': draw(st.sampled_from([0.5e-15, 1e-15, 2e-15, 5e-15])),
+        'temperature': draw(st.sampled_from([100.0, 300.0, 650.5, 1500.0])),
+    }
+
+
+def int_shifts(shape, lo=-3, hi=3):
+    n = int(np.prod(shape))
+    return st.lists(st.integers(lo, hi), min_size=n, max_size=n).map(lambda v: np.array(v, int).reshape(shape).tolist())
